@@ -854,6 +854,9 @@ def gen_file(rng, K, nmax, scratch, idx):
     t = max(t, 3.0)
     pts, vals = gen_table(rng, nmax)
     fill = round(rng.uniform(0.001, 1.5), rng.choice([1, 2, 4]))
+    if rng.random() < 0.1:      # whole-numbered factors, zero included (an empty beam), as float or integer cards
+        fill = float(rng.choice([0, 0, 1, 2]))
+    fill_int = fill == int(fill) and rng.random() < 0.5
     cards = []
     tkey_arg = bkey_arg = None
     mode_t = rng.choice(['default', 'named', 'named', 'missing'] if rng.random() < 0.2 else ['default', 'named', 'named'])
@@ -875,20 +878,20 @@ def gen_file(rng, K, nmax, scratch, idx):
         if tkey_arg is not None and rng.random() < 0.5:
             cards.append(['DEFT', q(t), False])
     if mode_b == 'default':
-        cards.append(['BEAMFILL', q(fill), False])
+        cards.append(['BEAMFILL', q(fill), fill_int])
         if rng.random() < 0.5:
             bkey_arg = recase(rng, 'BEAMFILL')
     elif mode_b == 'named':
         k = gen_key(rng, used)
         used.add(k)
-        cards.append([k, q(fill), False])
+        cards.append([k, q(fill), fill_int])
         bkey_arg = recase(rng, k)
         if rng.random() < 0.6:          # a BEAMFILL card of another value is also present
             cards.append(['BEAMFILL', q(round(fill * rng.uniform(1.2, 3.0) + 0.01, 3)), False])
     elif mode_b == 'named-absent':      # caller names a keyword the file does not have: 1 by the docstring
         bkey_arg = recase(rng, gen_key(rng, used))
         if rng.random() < 0.6:
-            cards.append(['BEAMFILL', q(fill), False])
+            cards.append(['BEAMFILL', q(fill), fill_int])
     # 'default-absent': no card, no argument -> 1
     rng.shuffle(cards)
     is_fits = rng.random() > 0.03
